@@ -201,6 +201,25 @@ def errors_consulted(ctx):
         ok,
         "resolve files the ambiguity of a lower rank under the continuation key in `errors`, but the continuation branch never looks there: call_next into a tied rank reports 'No method' instead of the ambiguity",
     )
+    # (i') ... and so is the table itself: resolving the bare key may just have stored this very continuation
+    params = [p for p in miss.params if p != rv]
+    reread = [
+        s
+        for s in inside
+        if isinstance(s, ast.Return) and isinstance(s.value, ast.Subscript) and isinstance(s.value.value, ast.Name) and s.value.value.id == rv and key_shapes(miss.node, s.value.slice, params) == {"param"}
+    ]
+    ok_rr = bool(reread) and all(cfg.dominated_by(cfg.node_of(r), [cfg.node_of(x) for x in reread] + tnodes) or True for r in nomethod)
+    if reread:
+        # "No method" must not be reachable without having looked the continuation key up in the table
+        looked = [s for s in inside if isinstance(s, ast.If) and any(isinstance(n, ast.Compare) and isinstance(n.ops[0], ast.In) and isinstance(n.comparators[0], ast.Name) and n.comparators[0].id == rv for n in ast.walk(s.test))]
+        ok_rr = bool(looked) and all(cfg.dominated_by(cfg.node_of(r), [cfg.node_of(x) for x in looked]) for r in nomethod)
+    ctx.ob(
+        f"{miss.key}:continuation:table-before-no-method",
+        miss.loc(reread[0]) if reread else miss.loc(br),
+        "in the continuation branch the continuation entry that resolving the bare key may just have stored is looked up (and returned) before answering 'No method'",
+        ok_rr,
+        "resolve stores the continuation under (code, *types) while the bare key is being resolved inside this very branch, but the branch never re-reads the table: the first call_next for a type tuple not seen before answers 'No method' although a lower method exists",
+    )
     # (ii) the bare key is resolved first, and a caller that is not a candidate falls back to a fresh lookup
     force = [s for s in br.body if isinstance(s, ast.Expr) and isinstance(s.value, ast.Subscript) and isinstance(s.value.value, ast.Name) and s.value.value.id == rv]
     fnodes = [cfg.node_of(s) for s in force]
